@@ -170,3 +170,147 @@ def streaming_and_abort(sx, p):
             problems.append('unparsable streamed body: %r' % (e,))
     sx.observe('problems', problems)
     return not problems
+
+
+# ---------------------------------------------------------------- redirects
+REDIRECT_APPS = {}
+RBEH = {}
+
+
+def _redirect_app(proto):
+    if proto not in REDIRECT_APPS:
+        from spyne import Application, Service, rpc
+        from spyne.model.primitive import Integer
+        from spyne.protocol.http import HttpRpc
+        from spyne.protocol.json import JsonDocument
+        from spyne.protocol.soap import Soap11
+        from spyne.server.http import HttpRedirect
+        from spyne.const import http as H
+
+        class R(Service):
+            @rpc(Integer, _returns=Integer)
+            def go(ctx, a):
+                code = {301: H.HTTP_301, 302: H.HTTP_302, 303: H.HTTP_303, 307: H.HTTP_307}[RBEH['code']]
+                if RBEH['how'] == 'raise':
+                    raise HttpRedirect(ctx, 'http://elsewhere.example/x?y=1', code=code)
+                ctx.transport.respond(code, location='http://elsewhere.example/x?y=1')
+                return a
+        inp, outp = {'http': (HttpRpc(), JsonDocument()), 'json': (JsonDocument(), JsonDocument()),
+                     'soap11': (Soap11(), Soap11())}[proto]
+        REDIRECT_APPS[proto] = Application([R], 'tns', in_protocol=inp, out_protocol=outp)
+    return REDIRECT_APPS[proto]
+
+
+@harness('C13', params=[(p, t) for p in ('http', 'json', 'soap11') for t in ('wsgi-chunked', 'wsgi-unchunked')], label=lambda p: '%s %s' % p,
+         functions=['spyne.server.http.HttpTransportContext.respond', 'spyne.server.http.HttpRedirect.do_redirect',
+                    'spyne.server.wsgi.WsgiApplication.handle_rpc'],
+         bounds={'schedule': 'a method that answers with a redirect - raise HttpRedirect or ctx.transport.respond() - with status '
+                             '301 / 302 / 303 / 307; three protocol pairs, chunked on/off'})
+def redirect_responses(sx, p):
+    """a redirect obeys the response protocol like everything else: one start_response with str status and headers (Location
+    among them) before the body, bytes chunks only, Content-Length (when present) equal to the body size"""
+    import io
+    from spyne.server.wsgi import WsgiApplication
+    proto, transport = p
+    RBEH['code'] = sx.choose('code', [302, 301, 303, 307])
+    RBEH['how'] = sx.choose('how', ['raise', 'respond'])
+    app = _redirect_app(proto)
+    body, env = {'http': (b'', {'REQUEST_METHOD': 'GET', 'PATH_INFO': '/go', 'QUERY_STRING': 'a=1'}),
+                 'json': (b'{"go": {"a": 1}}', {}),
+                 'soap11': (('<s:Envelope xmlns:s="%s"><s:Body><go xmlns="tns"><a>1</a></go></s:Body></s:Envelope>' % P.SOAP_ENV).encode(),
+                            {'CONTENT_TYPE': 'text/xml'})}[proto]
+    environ = {'REQUEST_METHOD': 'POST', 'PATH_INFO': '/', 'QUERY_STRING': '', 'SERVER_NAME': 'localhost', 'SERVER_PORT': '80',
+               'wsgi.url_scheme': 'http', 'wsgi.input': io.BytesIO(body), 'CONTENT_LENGTH': str(len(body)), 'CONTENT_TYPE': 'text/plain'}
+    environ.update(env)
+    rec = P.Record()
+    closed = []
+    w = WsgiApplication(app, chunked=(transport == 'wsgi-chunked'))
+    app.event_manager.add_listener('method_context_closed', lambda ctx: closed.append(len(rec.chunks)))
+
+    def start_response(status, headers, exc_info=None):
+        rec.start_response.append((status, headers, len(rec.chunks)))
+    try:
+        it = w(environ, start_response)
+        rec.extra['iter_started_with_start_response'] = len(rec.start_response)
+        for c in it:
+            rec.chunks.append(c)
+        if hasattr(it, 'close'):
+            it.close()
+    except Exception as e:
+        rec.escaped = e
+    finally:
+        hs = app.event_manager.handlers.get('method_context_closed')
+        for h in list(hs or ()):
+            if getattr(h, '__name__', '') == '<lambda>':
+                hs.remove(h)
+    rec.extra['closed'] = closed
+    problems = O.check_wsgi({'proto': proto}, rec)
+    if not problems:
+        status, headers, _ = rec.start_response[0]
+        if not status.startswith(str(RBEH['code'])):
+            problems.append('status %r for a %d redirect' % (status, RBEH['code']))
+        if [v for k, v in headers if k == 'Location'] != ['http://elsewhere.example/x?y=1']:
+            problems.append('Location header %r' % ([v for k, v in headers if k == 'Location'],))
+    sx.observe('problems', problems)
+    return not problems
+
+
+@harness('C13', params=[(pair, t) for pair in ('json-json', 'xml-xml') for t in ('wsgi-chunked', 'wsgi-unchunked')], label=lambda p: '%s %s' % p,
+         functions=['spyne.server.wsgi._ClosingIterator.close', 'spyne.server.wsgi._ClosingIterator.__next__',
+                    'spyne.context.MethodContext.close'],
+         bounds={'schedule': 'a method_context_closed or wsgi_close listener that raises; the server iterates the body to the end '
+                             '(or aborts after 0 / 1 chunks) and then calls close() on the iterable as PEP 3333 requires'})
+def close_once_with_raising_listener(sx, p):
+    """the request context is closed exactly once even when a clean-up listener raises: the server's mandatory close()
+    call after the failed iteration does not close it a second time"""
+    import io
+    from spyne.server.wsgi import WsgiApplication
+    pair, transport = p
+    if pair not in SAPPS:
+        inp, outp = {'json-json': (JsonDocument(), JsonDocument()), 'xml-xml': (XmlDocument(), XmlDocument())}[pair]
+        SAPPS[pair] = Application([StreamSvc], 'tns', in_protocol=inp, out_protocol=outp)
+    app = SAPPS[pair]
+    which = sx.choose('raising_listener', ['method_context_closed', 'wsgi_close'])
+    abort = sx.choose('abort_after', [None, 0, 1])
+    w = WsgiApplication(app, chunked=(transport == 'wsgi-chunked'))
+    GEN.clear()
+    closes = []
+
+    def counting(ctx):
+        closes.append(1)
+
+    def raising(ctx):
+        raise RuntimeError('clean-up hook failed')
+    app.event_manager.add_listener('method_context_closed', counting)
+    if which == 'method_context_closed':
+        app.event_manager.add_listener('method_context_closed', raising)
+    else:
+        w.event_manager.add_listener('wsgi_close', raising)
+    body = {'json-json': b'{"count": {"n": 2}}', 'xml-xml': b'<count xmlns="tns"><n>2</n></count>'}[pair]
+    environ = {'REQUEST_METHOD': 'POST', 'PATH_INFO': '/', 'QUERY_STRING': '', 'SERVER_NAME': 'localhost',
+               'SERVER_PORT': '80', 'wsgi.url_scheme': 'http', 'wsgi.input': io.BytesIO(body),
+               'CONTENT_LENGTH': str(len(body)), 'CONTENT_TYPE': 'text/plain'}
+    it = None
+    try:
+        try:
+            it = w(environ, lambda s, h, e=None: None)
+            got = 0
+            for chunk in it:
+                if abort is not None and got >= abort:
+                    break
+                got += 1
+        except RuntimeError:
+            pass                      # the hook's failure surfaces to the server ...
+        finally:
+            if it is not None and hasattr(it, 'close'):
+                try:
+                    it.close()        # ... which then calls close(), as it must
+                except RuntimeError:
+                    pass
+    finally:
+        hs = app.event_manager.handlers['method_context_closed']
+        for h in (counting, raising):
+            if h in hs:
+                hs.remove(h)
+    sx.observe('closes', len(closes))
+    return len(closes) == 1
